@@ -460,6 +460,7 @@ type txnGen struct {
 	sh       *shadow
 	named    map[string]string // table -> names declared in this transaction usable as references
 	inserted map[string][]string
+	claimSrc string // uuid of the row whose index values the last genIndexClaim copied
 }
 
 // genRefAtom: a uuid atom for a reference to `target`: mostly an existing row,
@@ -652,6 +653,14 @@ func genTxn(rng *rand.Rand, ts TxnSchema, sh *shadow, nops int) TxnJ {
 		t.Ops = append(t.Ops, g.genIndexMove()...)
 	case 1:
 		if op, ok := g.genIndexClaim(); ok {
+			// sometimes the transaction looks at the holder of the values first (select or a wait that
+			// holds): a row it only read is as much in the way as one it never touched
+			switch rng.Intn(4) {
+			case 0:
+				t.Ops = append(t.Ops, OperationJ{Op: "select", Table: op.Table, Where: byUUID(g.claimSrc)})
+			case 1:
+				t.Ops = append(t.Ops, OperationJ{Op: "select", Table: op.Table})
+			}
 			t.Ops = append(t.Ops, op)
 		}
 	case 4, 5, 6:
@@ -803,6 +812,7 @@ func (g *txnGen) genIndexClaim() (OperationJ, bool) {
 	}
 	idx := t.Indexes[g.rng.Intn(len(t.Indexes))]
 	src := g.sh.rows[t.Name][uuids[0]]
+	g.claimSrc = uuids[0]
 	row := Row{}
 	for _, c := range t.Cols {
 		if g.rng.Intn(3) != 0 {
